@@ -142,3 +142,16 @@ pub fn stub_find_key_simd(_page: &[u8], _key: &[u8], _n: usize) -> turdb::btree:
 pub fn find_script(q: &[(bool, usize)]) {
     unsafe { FIND_CALLS = 0; FIND_QN = q.len(); let mut i = 0; while i < q.len() && i < 4 { FIND_Q[i] = q[i]; i += 1; } }
 }
+
+/// `core::str::from_utf8` for documents whose strings are all ASCII (C32): std's validator (nested word-at-a-time
+/// loops over a slice whose length the symbolic executor cannot see as a constant) cost 98 s for one 2-byte string.
+/// ASCII bytes are accepted; a non-ASCII byte reaching validation means the code under test handed the wrong bytes to
+/// the validator (no string in these harnesses contains one) and is reported as a failure, not assumed away.
+pub fn stub_from_utf8_ascii(v: &[u8]) -> Result<(), core::str::Utf8Error> {
+    let mut i = 0;
+    while i < v.len() {
+        assert!(v[i] < 0x80, "role=only_the_ascii_bytes_of_strings_reach_utf8_validation");
+        i += 1;
+    }
+    Ok(())
+}
